@@ -7,6 +7,7 @@ import contracts.lammps_table as LT
 import contracts.potential
 import contracts.pair_tabulation as PT
 import contracts.builders as BU
+import contracts.factories as FCc
 
 F_LT, F_PT, F_POT, F_UTIL = LT.FILE, PT.FILE, K.F_POT, contracts.potential.F_UTIL
 
@@ -16,6 +17,7 @@ FUNCTIONS = [
     (F_POT, 'Potential.__init__'), (F_UTIL, 'gradient'), (F_UTIL, 'deriv'), (F_UTIL, 'num_deriv'),
     (BU.FILE, 'Pair_Potentials_From_Tuples_Builder.__init__'), (BU.FILE, 'Pair_Potentials_From_Tuples_Builder._create_potential'),
     (BU.FILE, 'Pair_Potentials_From_Tuples_Builder._init_potentials'),
+    (FCc.FILE, 'LAMMPS_PairTabulationFactory.extract_cutoffs'),     # potable route: the row count handed to LAMMPS_PairTabulation is >= 3 (its write() needs nr - 1 >= 2 rows)
 ]
 SPECSEQS = [LT.rows, LT.blocks]
 
